@@ -131,4 +131,79 @@ theorem union_sorted (a : Tree w L) (b : Tree w R) (hwa : HasWF a) (hwb : HasWF 
   rw [union_spec a b hwa hwb]
   exact (unionS_sorted _ _ _ _ _ (Nat.le_refl _) (slotEntries_sorted hwa) (slotEntries_sorted hwb)).1
 
+
+/-- which stored representation an item reports: a one-sided item the representation stored on its
+side, a `Both` item the one stored in the **left** operand (one of the two stored representations);
+the values (and slots) are those stored under that key on the respective sides -/
+theorem unionS_item_repr (fL : Pfx w → Lpm w R) (fR : Pfx w → Lpm w L) :
+    ∀ (n : Nat) (A : KL w L) (B : KL w R), A.length + B.length ≤ n → ∀ u ∈ unionS fL fR A B,
+      (match u with
+       | .left p l _ => (l.1, p, l.2) ∈ A
+       | .right p _ r => (r.1, p, r.2) ∈ B
+       | .both p l r => (l.1, p, l.2) ∈ A ∧ ∃ pr, (r.1, pr, r.2) ∈ B ∧ pr.net = p.net) := by
+  intro n
+  induction n with
+  | zero =>
+    intro A B h u hu
+    have hA : A = [] := List.eq_nil_of_length_eq_zero (by omega)
+    have hB : B = [] := List.eq_nil_of_length_eq_zero (by omega)
+    subst hA hB
+    simp [unionS_nil_left] at hu
+  | succ n ih =>
+    intro A B h u hu
+    cases A with
+    | nil =>
+      rw [unionS_nil_left] at hu
+      obtain ⟨b, hb, rfl⟩ := List.mem_map.1 hu
+      exact hb
+    | cons a as =>
+      cases B with
+      | nil =>
+        rw [unionS_nil_right] at hu
+        obtain ⟨x, hx, rfl⟩ := List.mem_map.1 hu
+        exact hx
+      | cons b bs =>
+        rw [unionS_cons_cons] at hu
+        simp only [List.length_cons] at h
+        split at hu
+        · next hk =>
+          rcases List.mem_cons.1 hu with rfl | hu
+          · exact ⟨List.mem_cons_self .., b.2.1, List.mem_cons_self .., hk.symm⟩
+          · have := ih as bs (by omega) u hu
+            cases u with
+            | left p l x => exact List.mem_cons_of_mem _ this
+            | right p x r => exact List.mem_cons_of_mem _ this
+            | both p l r =>
+              obtain ⟨h1, pr, h2, h3⟩ := this
+              exact ⟨List.mem_cons_of_mem _ h1, pr, List.mem_cons_of_mem _ h2, h3⟩
+        · split at hu
+          · rcases List.mem_cons.1 hu with rfl | hu
+            · exact List.mem_cons_self ..
+            · have := ih as (b :: bs) (by simp only [List.length_cons]; omega) u hu
+              cases u with
+              | left p l x => exact List.mem_cons_of_mem _ this
+              | right p x r => exact this
+              | both p l r =>
+                obtain ⟨h1, pr, h2, h3⟩ := this
+                exact ⟨List.mem_cons_of_mem _ h1, pr, h2, h3⟩
+          · rcases List.mem_cons.1 hu with rfl | hu
+            · exact List.mem_cons_self ..
+            · have := ih (a :: as) bs (by simp only [List.length_cons]; omega) u hu
+              cases u with
+              | left p l x => exact this
+              | right p x r => exact List.mem_cons_of_mem _ this
+              | both p l r =>
+                obtain ⟨h1, pr, h2, h3⟩ := this
+                exact ⟨h1, pr, List.mem_cons_of_mem _ h2, h3⟩
+
+/-- the same for the machine: every item of `union a b` reports a representation stored in an operand -/
+theorem union_item_repr (a : Tree w L) (b : Tree w R) (hwa : HasWF a) (hwb : HasWF b) :
+    ∀ u ∈ (union a b).filterMap UItem.view,
+      (match u with
+       | .left p l _ => (l.1, p, l.2) ∈ a.slotEntries
+       | .right p _ r => (r.1, p, r.2) ∈ b.slotEntries
+       | .both p l r => (l.1, p, l.2) ∈ a.slotEntries ∧ ∃ pr, (r.1, pr, r.2) ∈ b.slotEntries ∧ pr.net = p.net) := by
+  rw [union_spec a b hwa hwb]
+  exact unionS_item_repr _ _ _ _ _ (Nat.le_refl _)
+
 end PT.C05
